@@ -225,3 +225,74 @@ def _terminates(stmts) -> bool:
     if isinstance(last, ast.If) and last.orelse:
         return _terminates(last.body) and _terminates(last.orelse)
     return False
+
+
+# ---------------------------------------------------------------------------------------------------------------------
+# flow-sensitive dependence of an expression on the parameters of its function (reaching definitions over the CFG)
+
+
+def param_deps(func, expr, at_stmt, cfg=None, _memo=None, _depth=0):
+    """Set of parameter names of ``func`` (a model.Func) that ``expr`` - evaluated at statement ``at_stmt`` - may depend on,
+    following reaching definitions of locals (a parameter counts only where its initial value still reaches)."""
+    import ast as _ast
+    import networkx as nx
+    from .cfg import CFG
+    from .rules.common import walk_no_nested
+    cfg = cfg or CFG(func.node)
+    _memo = _memo if _memo is not None else {}
+    defs = {}
+    for n in walk_no_nested(func.node):
+        targets = []
+        if isinstance(n, _ast.Assign):
+            targets = n.targets
+        elif isinstance(n, (_ast.AugAssign, _ast.AnnAssign)):
+            targets = [n.target]
+        elif isinstance(n, (_ast.For,)):
+            targets = [n.target]
+        elif isinstance(n, _ast.With):
+            targets = [i.optional_vars for i in n.items if i.optional_vars is not None]
+        for t in targets:
+            for x in _ast.walk(t):
+                if isinstance(x, _ast.Name) and isinstance(x.ctx, _ast.Store):
+                    defs.setdefault(x.id, []).append(n)
+    out = set()
+    if _depth > 12:
+        return out
+    use_nodes = [x.idx for x in cfg.nodes_for(at_stmt)]
+    for x in _ast.walk(expr):
+        if not (isinstance(x, _ast.Name) and isinstance(x.ctx, _ast.Load)):
+            continue
+        name = x.id
+        ds = defs.get(name, [])
+        def_nodes = {id(d): [n.idx for n in cfg.nodes_for(d)] for d in ds}
+        all_def_nodes = {i for v in def_nodes.values() for i in v}
+        # does the parameter's initial value reach?
+        if name in func.params:
+            g = cfg.g.subgraph([n for n in cfg.g.nodes if n not in all_def_nodes or n in use_nodes])
+            if any(cfg.entry.idx in g and u in g and nx.has_path(g, cfg.entry.idx, u) for u in use_nodes):
+                out.add(name)
+        for d in ds:
+            others = all_def_nodes - set(def_nodes[id(d)])
+            g = cfg.g.subgraph([n for n in cfg.g.nodes if n not in others])
+            reaches = False
+            for a in def_nodes[id(d)]:
+                for u in use_nodes:
+                    if a in g and u in g:
+                        # the definition must be left before the use is reached (a statement does not reach itself unless in a loop)
+                        succs = list(g.successors(a))
+                        if any(s_ == u or nx.has_path(g, s_, u) for s_ in succs):
+                            reaches = True
+            if not reaches:
+                continue
+            key = (id(d), name)
+            if key in _memo:
+                out |= _memo[key]
+                continue
+            _memo[key] = set()
+            rhs = getattr(d, "value", None) if not isinstance(d, (_ast.For, _ast.With)) else (d.iter if isinstance(d, _ast.For) else d.items[0].context_expr)
+            sub = param_deps(func, rhs, d, cfg, _memo, _depth + 1) if rhs is not None else set()
+            if isinstance(d, _ast.AugAssign):
+                sub |= param_deps(func, _ast.Name(id=name, ctx=_ast.Load()), d, cfg, _memo, _depth + 1) if False else set()
+            _memo[key] = sub
+            out |= sub
+    return out
